@@ -654,6 +654,18 @@ fn crc_patterns(ctx: &mut Ctx, rng: &mut Rng, p: &PDU, enc: &[u8], thorough: boo
 
 // ---------------------------------------------------------------- run
 
+/// CRC-16/IBM-3740 written independently of the crate (only used to repair the CRC of mutated inputs)
+fn crc_ccitt(data: &[u8]) -> u16 {
+    let mut crc: u16 = 0xffff;
+    for &b in data {
+        crc ^= (b as u16) << 8;
+        for _ in 0..8 {
+            crc = if crc & 0x8000 != 0 { (crc << 1) ^ 0x1021 } else { crc << 1 };
+        }
+    }
+    crc
+}
+
 pub fn run(opts: &Opts, out: &mut dyn Write) {
     let mut ctx = Ctx::new(out);
     if let Some(p) = &opts.replay {
@@ -672,7 +684,7 @@ pub fn run(opts: &Opts, out: &mut dyn Write) {
     let mut cases = 0u64;
     // 1. well-formed values: every kind x id widths x size flag x crc, several random instances
     let reps = if opts.thorough { 60 } else { 6 };
-    let mut good: Vec<Vec<u8>> = vec![];
+    let mut by_kind: Vec<Vec<Vec<u8>>> = vec![vec![]; 9];
     for k in 0..9u64 {
         for &idw in &WIDTHS {
             for &seqw in &WIDTHS {
@@ -684,12 +696,29 @@ pub fn run(opts: &Opts, out: &mut dyn Write) {
                             let pdu = mk_pdu(&mut rng, p, seg, large, crc, idw, seqw, bits);
                             let enc = ctx.roundtrip(&pdu);
                             cases += 1;
-                            if good.len() < 400 || rng.chance(1, 50) {
-                                good.push(enc);
+                            if enc.len() <= 400 && (by_kind[k as usize].len() < 60 || rng.chance(1, 20)) {
+                                by_kind[k as usize].push(enc);
                             }
                         }
                     }
                 }
+            }
+        }
+    }
+    // the sample that gets mutated: round-robin over the PDU kinds (so every decoder is reached),
+    // in a seeded random order within each kind
+    for v in by_kind.iter_mut() {
+        for i in (1..v.len()).rev() {
+            let j = rng.below(i as u64 + 1) as usize;
+            v.swap(i, j);
+        }
+    }
+    let mut good: Vec<Vec<u8>> = vec![];
+    let longest = by_kind.iter().map(|v| v.len()).max().unwrap_or(0);
+    for i in 0..longest {
+        for v in by_kind.iter() {
+            if let Some(e) = v.get(i) {
+                good.push(e.clone());
             }
         }
     }
@@ -706,11 +735,12 @@ pub fn run(opts: &Opts, out: &mut dyn Write) {
     }
     // 2. malformed stream
     //  2a. every truncation and every single-byte mutation of a sample of good encodings
-    let sample = if opts.thorough { 300 } else { 60 };
+    let sample = if opts.thorough { 450 } else { 72 };
     for enc in good.iter().take(sample) {
         if enc.len() > 400 {
             continue;
         }
+        let has_crc = enc[0] & 0x02 != 0 && enc.len() >= 6 && crc_ccitt(&enc[..enc.len() - 2]).to_be_bytes() == enc[enc.len() - 2..];
         for n in 0..enc.len() {
             ctx.pdu_op(&enc[..n]);
             cases += 1;
@@ -722,6 +752,14 @@ pub fn run(opts: &Opts, out: &mut dyn Write) {
                     b[i] = v;
                     ctx.pdu_op(&b);
                     cases += 1;
+                    if has_crc && i < enc.len() - 2 {
+                        // the same mutation with a matching CRC, so that it reaches the decoder behind the CRC check
+                        let n = b.len();
+                        let c = crc_ccitt(&b[..n - 2]).to_be_bytes();
+                        b[n - 2..].copy_from_slice(&c);
+                        ctx.pdu_op(&b);
+                        cases += 1;
+                    }
                 }
             }
         }
